@@ -48,6 +48,14 @@ func (el *enumValueList) add(evs ...*EnumValue) error {
 	return nil
 }
 
+// truncate removes all but the first n values.
+func (el *enumValueList) truncate(n int) {
+	for _, ev := range el.list[n:] {
+		delete(el.dict, string(ev.Value))
+	}
+	el.list = el.list[:n]
+}
+
 func (el *enumValueList) has(v Symbol) bool {
 	if el.dict != nil {
 		if _, ok := el.dict[string(v)]; ok {
